@@ -10,3 +10,8 @@ import DnaModel.Props.C18
 import DnaModel.Props.C19
 import DnaModel.Props.C11
 import DnaModel.Props.C15
+import DnaModel.Props.C01
+import DnaModel.Props.C14
+import DnaModel.Props.C06
+import DnaModel.Props.C02
+import DnaModel.Props.C03
